@@ -855,7 +855,8 @@ void mmd_assign_line_type(mmd_engine * e, token * line) {
 
 			// If PIPE is first, save checking later and assign LINE_TABLE now
 			if (!(e->extensions & EXT_COMPATIBILITY)) {
-				scan_len = scan_table_separator(&source[line->start]);
+				// Scan from the first token: inside a list item the line still starts with the stripped marker
+				scan_len = scan_table_separator(&source[first_child->start]);
 				line->type = (scan_len) ? LINE_TABLE_SEPARATOR : LINE_TABLE;
 
 				break;
@@ -903,7 +904,8 @@ void mmd_assign_line_type(mmd_engine * e, token * line) {
 
 		while (walker != NULL) {
 			if (walker->type == PIPE) {
-				scan_len = scan_table_separator(&source[line->start]);
+				// Scan from the first token: inside a list item the line still starts with the stripped marker
+				scan_len = scan_table_separator(&source[first_child->start]);
 				line->type = (scan_len) ? LINE_TABLE_SEPARATOR : LINE_TABLE;
 
 				return;
